@@ -46,7 +46,7 @@ def jobs(tier):
                      assigns='__exc')
         out.append(Job('idl.new_%s' % rel, 'smt_idl_theory_new_%s__lin__lin' % rel, tus=TUS, contract=c, defines=d, unwind=6, model_unwind=8,
                        spec_headers=SPEC, callee_contracts={NEWD: C_NEWD, CONJ: C_CONJ}, replace=[NEWD, CONJ], exceptions=True,
-                       caps={'map': 4, 'vec_vec_I': 4, 'vec_I': 4, 'vec_lit': 2}, abstract_fields=ABS, harness=HARNESS % ('smt_idl_theory_new_%s__lin__lin' % rel), roots=['smt_lin_ctor'], timeout=3000, mem_gb=24,
+                       caps={'map': 4, 'vec_vec_I': 4, 'vec_I': 4, 'vec_lit': 2}, abstract_fields=ABS, harness=HARNESS % ('smt_idl_theory_new_%s__lin__lin' % rel), roots=['smt_lin_ctor'], timeout=3000, mem_gb=24, mem_est=4,
                        force_types=['std::vector<std::vector<long>>', 'std::vector<smt::lit>'],
                        bounded='expressions with <= 2 terms each over 4 time points, |coefficients| < 2^%d, |x| <= 4' % W))
     # ---- expression queries.  bounds(l): the interval must be the one derived from the variable-level distances, must enclose the
@@ -63,7 +63,7 @@ def jobs(tier):
                            ('encloses_every_consistent_valuation', '__exc != 0 || (sp_val_sign(*l, (WIDE_t)%s.first) >= 0 && sp_val_sign(*l, (WIDE_t)%s.second) <= 0)' % (R, R))],
                   assigns='__exc')
     out.append(Job('idl.bounds', 'smt_idl_theory_bounds__lin', tus=TUS, contract=cb, defines=dict(d, XT_DQ=(20 if bits == 8 else 64)), unwind=6, model_unwind=8, spec_headers=SPEC, exceptions=True,
-                   caps={'map': 4, 'vec_vec_I': 4, 'vec_I': 4, 'vec_lit': 2}, abstract_fields=dict(ABS, **{'smt::lit': ['x']}), harness=HQ, timeout=3000, mem_gb=24,
+                   caps={'map': 4, 'vec_vec_I': 4, 'vec_I': 4, 'vec_lit': 2}, abstract_fields=dict(ABS, **{'smt::lit': ['x']}), harness=HQ, timeout=3000, mem_gb=24, mem_est=4,
                    force_types=['std::vector<std::vector<long>>'],
                    replay={'driver': 'dl', 'stanza': '''  const int n = XT_NTP; sat_core sat; idl_theory *th = build_idl_q(sat, n); lin l = mk_lin(100);
   q_bounds want = bounds_of(*th, l); rational v = lin_value(l, n); std::string why;
@@ -88,7 +88,7 @@ def jobs(tier):
                            ('encloses_every_consistent_valuation', '__exc != 0 || (sp_val_sign(sp_lin_neg(*from), (WIDE_t)%s.first) >= 0 && sp_val_sign(sp_lin_neg(*from), (WIDE_t)%s.second) <= 0)' % (R, R))],
                   assigns='__exc')
     out.append(Job('idl.distance', 'smt_idl_theory_distance__lin__lin', tus=TUS, contract=cd, defines=dict(d, XT_DQ=(20 if bits == 8 else 64)), unwind=6, model_unwind=8, spec_headers=SPEC, exceptions=True,
-                   caps={'map': 4, 'vec_vec_I': 4, 'vec_I': 4, 'vec_lit': 2}, abstract_fields=dict(ABS, **{'smt::lit': ['x']}), harness=HD, roots=['smt_lin_ctor'], timeout=3000, mem_gb=24,
+                   caps={'map': 4, 'vec_vec_I': 4, 'vec_I': 4, 'vec_lit': 2}, abstract_fields=dict(ABS, **{'smt::lit': ['x']}), harness=HD, roots=['smt_lin_ctor'], timeout=3000, mem_gb=24, mem_est=4,
                    force_types=['std::vector<std::vector<long>>'],
                    replay={'driver': 'dl', 'stanza': '''  const int n = XT_NTP; sat_core sat; idl_theory *th = build_idl_q(sat, n); lin from = mk_lin(100); lin to;
   q_bounds want = bounds_of(*th, to - from); rational v = lin_value(to - from, n); std::string why;
@@ -116,7 +116,7 @@ def jobs(tier):
                            ('never_denies_an_equality_some_consistent_valuation_has', '__exc != 0 || sp_diff_sign(*l0, *l1) != 0 || %s' % R)],
                   assigns='__exc')
     out.append(Job('idl.equates', 'smt_idl_theory_equates__lin__lin', tus=TUS, contract=ce, defines=dict(d, XT_DQ=(10 if bits == 8 else 64)), unwind=6, model_unwind=8, spec_headers=SPEC, exceptions=True,
-                   caps={'map': 4, 'vec_vec_I': 4, 'vec_I': 4, 'vec_lit': 2}, abstract_fields=dict(ABS, **{'smt::lit': ['x']}), harness=HE, timeout=3000, mem_gb=24,
+                   caps={'map': 4, 'vec_vec_I': 4, 'vec_I': 4, 'vec_lit': 2}, abstract_fields=dict(ABS, **{'smt::lit': ['x']}), harness=HE, timeout=3000, mem_gb=24, mem_est=4,
                    force_types=['std::vector<std::vector<long>>'],
                    replay={'driver': 'dl', 'stanza': '''  const int n = XT_NTP; sat_core sat; idl_theory *th = build_idl_q(sat, n); lin l0 = mk_lin(100), l1 = mk_lin(130);
   q_bounds want = bounds_of(*th, l0 - l1); rational v = lin_value(l0 - l1, n); std::string why;
@@ -187,6 +187,6 @@ static inline _Bool spd_registered(struct map_pair_U_U_vec_idl_distancep before,
                    caps={'map': 4, 'vec_vec_I': 4, 'vec_I': 4, 'vec_lit': 2, 'vec_us': 6, 'umap_U_idl_distancep': 1, 'map_pair_U_U_vec_idl_distancep': 2, 'vec_idl_distancep': 2},
                    abstract_fields={'smt::sat_core': ['assigns'], 'smt::theory': ['sat'], 'smt::idl_theory': ['_dists', 'var_dists', 'dist_constrs'], 'smt::lit': ['x'],
                                     'smt::idl_theory::idl_distance': ['b', 'from', 'to', 'dist'], 'smt::rational': ['num', 'den'], 'smt::lin': ['vars', 'known_term']},
-                   timeout=3000, mem_gb=24, force_types=['std::vector<std::vector<long>>'],
+                   timeout=3000, mem_gb=24, mem_est=4, force_types=['std::vector<std::vector<long>>'],
                    bounded='%d time points, |dist| <= 64, <= 1 pair with one registered constraint before the call' % d['XT_NTP']))
     return out
